@@ -85,6 +85,12 @@ def enc_len(nfields, value_lens):
     return 4 + 4 * (nfields - 1) + 4 * nfields + sum(value_lens)
 
 
+def _gsv_found_variant(ctx):
+    """discriminant of "a supported version was found": Some (1) for Option<Version>, Ok (0) when the scan reports none as an Err"""
+    f = ctx.prog.fns.get("roughenough::request::get_supported_version")
+    return 0 if f is not None and f.locals[0]["ty"].startswith("core::result::Result<") else 1
+
+
 def run(ctx):
     W = World(ctx)
     P = ctx.prog
@@ -221,7 +227,7 @@ def run(ctx):
                 ctx.check("wellformed-gate", "RfcDraft13/frame-length-equals-payload", okf, "Ok only when the u32 LE at buf[8..12] equals len(buf) - 12",
                           "frame length check missing or altered (%s)" % det, fn.loc(bb))
                 from lib import fact_is_present
-                okv = fact_is_present(rels, lambda x: is_call(x, "get_supported_version"))
+                okv = fact_is_present(rels, lambda x: is_call(x, "get_supported_version"), variant_index=_gsv_found_variant(ctx))
                 # `version.is_none()` false edge is NotPred(is_none) -> mapped to Pred(is_some)
                 ctx.check("wellformed-gate", "RfcDraft13/supported-version-found", okv, "Ok only when get_supported_version() is Some",
                           "Ok can be returned although no supported version was found", fn.loc(bb))
@@ -278,7 +284,7 @@ def run(ctx):
     # the send loop iterates `requests`
     sr = ctx.fn(sm.SEND)
     sev = W.ev(sm.SEND)
-    from lib import iter_elem
+    from lib import iter_elem, signer_pubkey
     for bb, t in sr.calls():
         if strip_generics(t["fn"].get("path", "")).endswith("UdpSocket::send_to"):
             dst = W.expand(sev.call_args(bb)[2])
@@ -299,7 +305,7 @@ def run(ctx):
         okd, dfields, _ = sm.message_built(W, dev, dev.ret()) if dev.ret()[0] == "obj" else (False, [], "")
         dl = []
         for (tg, val, bb) in dfields:
-            n = PK if is_call(val, "MsgSigner::public_key_bytes") else bytelen(W, dev, val)
+            n = PK if (is_call(val, "MsgSigner::public_key_bytes") or signer_pubkey(W, val) is not None) else bytelen(W, dev, val)
             dl.append(n)
         dele = enc_len(len(dl), dl) if okd and None not in dl else None
         cert = enc_len(2, [SIG, dele]) if dele is not None else None
